@@ -308,4 +308,280 @@ Proof.
   rewrite RW. cbn [replay_from]. rewrite H. now rewrite app_nil_r.
 Qed.
 
+(* ---------------- torn tails ---------------- *)
+
+Lemma takeN_app_ge : forall {A} n (a b : list A), nlen a <= n -> takeN n (a ++ b) = a ++ takeN (n - nlen a) b.
+Proof.
+  intros A n a b H. unfold takeN, nlen in *. rewrite firstn_app. f_equal.
+  - apply firstn_all2. lia.
+  - f_equal. lia.
+Qed.
+
+Lemma takeN_all : forall {A} n (l : list A), nlen l <= n -> takeN n l = l.
+Proof. intros A n l H. unfold takeN, nlen in *. apply firstn_all2. lia. Qed.
+
+(* a chunk cut anywhere before its end: the reader stops, with a verdict open() recovers from *)
+Lemma torn_chunk_any : forall ty fuel wf off p c,
+  In ty [ty_full; ty_first; ty_middle; ty_last] ->
+  off < blk -> off + hdr + nlen p <= blk -> c < hdr + nlen p ->
+  exists v, next_chunk ck lognum (S fuel) wf off (takeN c (chunk ck ty p)) = ChStop v /\
+            recoverable v = true.
+Proof.
+  intros ty fuel wf off p c Hty Ho Hfit Hcut. rewrite blk_val, hdr_val in *.
+  assert (Hp : nlen p < 65536) by lia.
+  destruct (header_shape ck ck_u32 ty p Hp) as (a & b & c0 & d & e & f & HS & HC & HL).
+  rewrite chunk_header, HS.
+  set (full := [a; b; c0; d; e; f; ty] ++ p).
+  assert (LF : nlen full = 7 + nlen p) by (unfold full; rewrite nlen_app; reflexivity).
+  assert (LT : nlen (takeN c full) = c) by (apply nlen_takeN; lia).
+  cbn [next_chunk].
+  destruct (N.lt_ge_cases c 7) as [C|C].
+  - (* the header is torn (or absent) *)
+    replace (hdr <=? N.min (blk - off) (nlen (takeN c full))) with false.
+    2:{ symmetry. apply N.leb_gt. rewrite LT, blk_val, hdr_val. lia. }
+    replace (blk - off <=? nlen (takeN c full)) with false.
+    2:{ symmetry. apply N.leb_gt. rewrite LT, blk_val. lia. }
+    destruct (takeN c full) as [|x l].
+    + destruct (off =? 0), wf; eexists; split; reflexivity.
+    + eexists; split; reflexivity.
+  - (* the header is complete, the payload is torn *)
+    assert (TS : takeN c full = [a; b; c0; d; e; f; ty] ++ takeN (c - 7) p).
+    { unfold full. rewrite takeN_app_ge by (cbn; lia). reflexivity. }
+    replace (hdr <=? N.min (blk - off) (nlen (takeN c full))) with true.
+    2:{ symmetry. apply N.leb_le. rewrite LT, blk_val, hdr_val. lia. }
+    rewrite TS.
+    set (suf := [a; b; c0; d; e; f; ty] ++ takeN (c - 7) p).
+    assert (T4 : takeN 4 suf = [a; b; c0; d]) by reflexivity.
+    assert (T2 : takeN 2 (dropN 4 suf) = [e; f]) by reflexivity.
+    assert (T6 : nth 6 suf 0 = ty) by reflexivity.
+    rewrite T4, T2, T6, HC, HL.
+    assert (Z : (ty =? 0) = false).
+    { cbn [In] in Hty. destruct Hty as [<-|[<-|[<-|[<-|[]]]]]; reflexivity. }
+    rewrite Z, andb_false_r.
+    assert (RC : (c10_tan_recyclable_full_chunk <=? ty) && (ty <=? c10_tan_recyclable_last_chunk) = false).
+    { cbn [In] in Hty. destruct Hty as [<-|[<-|[<-|[<-|[]]]]]; reflexivity. }
+    rewrite RC. cbn [andb].
+    replace (N.min (blk - off) (nlen suf) <? hdr + nlen p) with true.
+    + eexists; split; reflexivity.
+    + symmetry. apply N.ltb_lt. unfold suf. rewrite <- TS, LT, blk_val, hdr_val. lia.
+Qed.
+
+(* the chunks after the first one, cut anywhere *)
+Lemma emit_rest_torn : forall fe p acc fr c,
+  (length p < fe)%nat -> (N.to_nat c < fr)%nat ->
+  c < nlen (emit ck fe false (blk - hdr) p) ->
+  exists v, read_rest ck lognum fr acc false 0 (takeN c (emit ck fe false (blk - hdr) p)) = RecStop v /\
+            recoverable v = true.
+Proof.
+  induction fe as [|f IH]; intros p acc fr c Hfe Hfr Hc; [lia|].
+  destruct fr as [|fr']; [lia|].
+  rewrite emit_S in *. destruct (nlen p <=? blk - hdr) eqn:E.
+  - apply N.leb_le in E. rewrite chunk_len in Hc. cbn [read_rest].
+    destruct (torn_chunk_any ty_last (length (takeN c (chunk ck ty_last p))) false 0 p c) as (v & EV & RV).
+    + cbn; auto.
+    + rewrite blk_val; lia.
+    + rewrite blk_val, hdr_val in *. lia.
+    + exact Hc.
+    + rewrite EV. eauto.
+  - apply N.leb_gt in E.
+    assert (LT : nlen (takeN (blk - hdr) p) = blk - hdr) by (apply nlen_takeN; lia).
+    set (X := takeN (blk - hdr) p) in *.
+    assert (LC : nlen (chunk ck ty_middle X) = blk).
+    { rewrite chunk_len, LT. reflexivity. }
+    destruct (N.lt_ge_cases c blk) as [C|C].
+    + (* inside the middle chunk *)
+      rewrite takeN_app_le by lia. cbn [read_rest].
+      destruct (torn_chunk_any ty_middle (length (takeN c (chunk ck ty_middle X))) false 0 X c) as (v & EV & RV).
+      * cbn; auto.
+      * rewrite blk_val; lia.
+      * rewrite LT, blk_val, hdr_val. lia.
+      * rewrite LT. replace (hdr + (blk - hdr)) with blk by reflexivity. exact C.
+      * rewrite EV. eauto.
+    + (* the middle chunk is complete *)
+      rewrite takeN_app_ge by lia. rewrite LC. cbn [read_rest].
+      rewrite (next_chunk_any ty_middle _ false 0 X).
+      * rewrite LT. replace ((0 + hdr + (blk - hdr)) mod blk) with 0 by reflexivity.
+        change (is_last_ty ty_middle) with false.
+        apply IH.
+        -- rewrite length_dropN, blk_val, hdr_val. unfold nlen in E. rewrite blk_val, hdr_val in E. lia.
+        -- rewrite blk_val in *. lia.
+        -- rewrite nlen_app, LC in Hc. lia.
+      * cbn; auto.
+      * discriminate.
+      * rewrite LT, blk_val, hdr_val. lia.
+Qed.
+
+(* the chunks of a record whose header fits at offset off, cut anywhere *)
+Lemma first_chunk_torn : forall off p c fn fr,
+  off < blk -> off + hdr <= blk -> (N.to_nat c < fr)%nat ->
+  c < nlen (emit ck (S (S (length p))) true (blk - (off + hdr)) p) ->
+  exists v,
+    match next_chunk ck lognum (S fn) true off
+            (takeN c (emit ck (S (S (length p))) true (blk - (off + hdr)) p)) with
+    | ChStop v => RecStop v
+    | ChOk x l off' suf' => read_rest ck lognum fr x l off' suf'
+    end = RecStop v /\ recoverable v = true.
+Proof.
+  intros off p c fn fr Ho Hoff Hfr Hc. rewrite emit_S in *.
+  destruct (nlen p <=? blk - (off + hdr)) eqn:E.
+  - apply N.leb_le in E. rewrite chunk_len in Hc.
+    destruct (torn_chunk_any ty_full fn true off p c) as (v & EV & RV).
+    + cbn; auto.
+    + exact Ho.
+    + rewrite blk_val, hdr_val in *. lia.
+    + exact Hc.
+    + rewrite EV. eauto.
+  - apply N.leb_gt in E.
+    assert (LT : nlen (takeN (blk - (off + hdr)) p) = blk - (off + hdr)) by (apply nlen_takeN; lia).
+    set (X := takeN (blk - (off + hdr)) p) in *.
+    assert (LC : nlen (chunk ck ty_first X) = blk - off).
+    { rewrite chunk_len, LT. rewrite blk_val, hdr_val in *. lia. }
+    destruct (N.lt_ge_cases c (blk - off)) as [C|C].
+    + rewrite takeN_app_le by lia.
+      destruct (torn_chunk_any ty_first fn true off X c) as (v & EV & RV).
+      * cbn; auto.
+      * exact Ho.
+      * rewrite LT. lia.
+      * rewrite LT. rewrite blk_val, hdr_val in *. lia.
+      * rewrite EV. eauto.
+    + rewrite takeN_app_ge by lia. rewrite LC.
+      rewrite (next_chunk_any ty_first fn true off X).
+      * rewrite LT. replace (off + hdr + (blk - (off + hdr))) with blk by lia.
+        rewrite N.mod_same by (rewrite blk_val; lia).
+        change (is_last_ty ty_first) with false.
+        apply emit_rest_torn.
+        -- rewrite length_dropN. lia.
+        -- lia.
+        -- rewrite nlen_app, LC in Hc. lia.
+      * cbn; auto.
+      * reflexivity.
+      * rewrite LT. lia.
+Qed.
+
+(* a record cut anywhere before its end (padding included) *)
+Lemma read_record_torn_written : forall pos p c,
+  c < nlen (write_record ck pos p) ->
+  exists v, read_record ck lognum (pos mod blk) (takeN c (write_record ck pos p)) = RecStop v /\
+            recoverable v = true.
+Proof.
+  intros pos p c. unfold write_record. cbv zeta.
+  set (off := pos mod blk).
+  assert (Ho : off < blk) by (apply N.mod_lt; rewrite blk_val; lia).
+  unfold pad_len. destruct (blk <? off + hdr) eqn:EP.
+  - apply N.ltb_lt in EP.
+    replace ((off + (blk - off)) mod blk) with 0.
+    2:{ replace (off + (blk - off)) with blk by lia. symmetry. apply N.mod_same. rewrite blk_val; lia. }
+    set (E := emit ck (S (S (length p))) true (blk - (0 + hdr)) p).
+    intros Hc. rewrite nlen_app, nlen_zeros in Hc.
+    destruct (N.lt_ge_cases c (blk - off)) as [C|C].
+    + (* inside the padding *)
+      rewrite takeN_app_le by (rewrite nlen_zeros; lia).
+      assert (LT : nlen (takeN c (zeros (blk - off))) = c) by (apply nlen_takeN; rewrite nlen_zeros; lia).
+      unfold read_record.
+      destruct (length (takeN c (zeros (blk - off)))) as [|k] eqn:LK; cbn [next_chunk];
+        (replace (hdr <=? N.min (blk - off) (nlen (takeN c (zeros (blk - off))))) with false
+           by (symmetry; apply N.leb_gt; rewrite LT; rewrite blk_val, hdr_val in *; lia));
+        (replace (blk - off <=? nlen (takeN c (zeros (blk - off)))) with false
+           by (symmetry; apply N.leb_gt; rewrite LT; lia));
+        destruct (takeN c (zeros (blk - off))); try (destruct (off =? 0)); eexists; split; reflexivity.
+    + rewrite takeN_app_ge by (rewrite nlen_zeros; lia). rewrite nlen_zeros.
+      unfold read_record.
+      destruct (takeN (c - (blk - off)) E) as [|x l] eqn:ET.
+      * (* exactly the padding *)
+        rewrite app_nil_r. cbn [next_chunk].
+        replace (hdr <=? N.min (blk - off) (nlen (zeros (blk - off)))) with false
+          by (symmetry; apply N.leb_gt; rewrite nlen_zeros; rewrite blk_val, hdr_val in *; lia).
+        replace (blk - off <=? nlen (zeros (blk - off))) with true
+          by (symmetry; apply N.leb_le; rewrite nlen_zeros; lia).
+        replace (dropN (blk - off) (zeros (blk - off))) with (@nil N).
+        -- eexists; split; reflexivity.
+        -- pose proof (dropN_app (zeros (blk - off)) (@nil N)) as DA.
+           rewrite nlen_zeros, app_nil_r in DA. now rewrite DA.
+      * rewrite <- ET.
+        assert (LTK : nlen (takeN (c - (blk - off)) E) = c - (blk - off)) by (apply nlen_takeN; lia).
+        destruct (length (zeros (blk - off) ++ takeN (c - (blk - off)) E)) as [|k] eqn:LS.
+        { rewrite app_length, ET in LS. cbn in LS. lia. }
+        rewrite (next_chunk_jump (S k) true off (zeros (blk - off))); auto.
+        -- unfold E. apply first_chunk_torn.
+           ++ rewrite blk_val; lia.
+           ++ rewrite blk_val, hdr_val; lia.
+           ++ rewrite app_length in LS. unfold nlen in LTK. lia.
+           ++ fold E. lia.
+        -- apply nlen_zeros.
+        -- rewrite ET. discriminate.
+  - apply N.ltb_ge in EP. cbn [zeros N.to_nat repeat app].
+    rewrite N.add_0_r. replace (off mod blk) with off by (symmetry; apply N.mod_small; exact Ho).
+    intros Hc. unfold read_record. apply first_chunk_torn; auto.
+    assert (LTK : nlen (takeN c (emit ck (S (S (length p))) true (blk - (off + hdr)) p)) = c)
+      by (apply nlen_takeN; lia).
+    unfold nlen in LTK. lia.
+Qed.
+
+(* TORN TAIL: the log is cut anywhere inside the bytes of its last record *)
+Theorem tan_replay_torn_record_proved : forall rs r c,
+  c < nlen (write_record ck (nlen (frame ck rs)) r) ->
+  exists v, replay ck lognum (frame ck rs ++ takeN c (write_record ck (nlen (frame ck rs)) r)) = (rs, v) /\
+            recoverable v = true.
+Proof.
+  intros rs r c Hc.
+  destruct (read_record_torn_written (nlen (frame ck rs)) r c Hc) as (v & E & R).
+  exists v. split; auto. now apply tan_replay_rejected_tail_proved.
+Qed.
+
+Lemma frame_from_app : forall a b pos,
+  frame_from ck pos (a ++ b) = frame_from ck pos a ++ frame_from ck (pos + nlen (frame_from ck pos a)) b.
+Proof.
+  induction a as [|r t IH]; intros b pos; cbn [app frame_from].
+  - change (nlen (@nil N)) with 0. now rewrite N.add_0_r.
+  - cbv zeta. rewrite IH, <- app_assoc, nlen_app, N.add_assoc. reflexivity.
+Qed.
+
+(* every cut of a frame falls inside the bytes of exactly one record *)
+Lemma cut_decompose : forall rs pos cut, cut < nlen (frame_from ck pos rs) ->
+  exists rs1 r rs2 c, rs = rs1 ++ r :: rs2 /\
+    c < nlen (write_record ck (pos + nlen (frame_from ck pos rs1)) r) /\
+    takeN cut (frame_from ck pos rs)
+    = frame_from ck pos rs1 ++ takeN c (write_record ck (pos + nlen (frame_from ck pos rs1)) r).
+Proof.
+  induction rs as [|r t IH]; intros pos cut H; cbn [frame_from] in *.
+  - change (nlen (@nil N)) with 0 in H. lia.
+  - cbv zeta in *. rewrite nlen_app in H.
+    destruct (N.lt_ge_cases cut (nlen (write_record ck pos r))) as [C|C].
+    + exists [], r, t, cut. cbn [frame_from app]. change (nlen (@nil N)) with 0. rewrite N.add_0_r.
+      split; [reflexivity|]. split; [exact C|]. apply takeN_app_le. lia.
+    + destruct (IH (pos + nlen (write_record ck pos r)) (cut - nlen (write_record ck pos r)))
+        as (rs1 & r' & rs2 & c & E & HC & HT); [lia|].
+      exists (r :: rs1), r', rs2, c. cbn [frame_from app]. cbv zeta.
+      rewrite nlen_app, N.add_assoc. split; [now rewrite E|]. split; [exact HC|].
+      rewrite takeN_app_ge by lia. rewrite HT, <- app_assoc. reflexivity.
+Qed.
+
+(* EVERY CUT POINT of the written bytes: replay returns a prefix of the written records -
+   exactly those that are completely inside the cut - never a fabricated or altered record,
+   and it stops with a verdict open() recovers from *)
+Theorem tan_replay_any_cut_proved : forall rs cut,
+  exists k v, replay ck lognum (takeN cut (frame ck rs)) = (firstn k rs, v) /\
+              recoverable v = true /\
+              nlen (frame ck (firstn k rs)) <= cut /\
+              ((k < length rs)%nat -> cut < nlen (frame ck (firstn (S k) rs))).
+Proof.
+  intros rs cut. destruct (N.lt_ge_cases cut (nlen (frame ck rs))) as [C|C].
+  - unfold frame in *. destruct (cut_decompose rs 0 cut C) as (rs1 & r & rs2 & c & E & HC & HT).
+    rewrite N.add_0_l in *.
+    destruct (tan_replay_torn_record_proved rs1 r c HC) as (v & ER & RV).
+    exists (length rs1), v. unfold frame in *. rewrite HT, ER.
+    assert (F : firstn (length rs1) rs = rs1).
+    { rewrite E, firstn_app, Nat.sub_diag, firstn_all. cbn. apply app_nil_r. }
+    assert (F2 : firstn (S (length rs1)) rs = rs1 ++ [r]).
+    { rewrite E, firstn_app, firstn_all2 by lia.
+      replace (S (length rs1) - length rs1)%nat with 1%nat by lia. reflexivity. }
+    rewrite F, F2. split; [reflexivity|]. split; [exact RV|].
+    apply (f_equal (@nlen N)) in HT. rewrite nlen_takeN in HT by lia.
+    rewrite nlen_app in HT. rewrite nlen_takeN in HT by lia.
+    split; [lia|]. intros _.
+    rewrite frame_from_app, nlen_app. cbn [frame_from]. cbv zeta. rewrite app_nil_r, N.add_0_l. lia.
+  - exists (length rs), VEof. rewrite firstn_all, takeN_all by exact C.
+    split; [apply tan_replay_roundtrip_proved|]. split; [reflexivity|]. split; [exact C|lia].
+Qed.
+
 End TanMulti.
